@@ -2677,12 +2677,18 @@ int32 matrixValidateCertsExt(psPool_t *pool, psX509Cert_t *subjectCerts,
                     if (opts->nameType == NAME_TYPE_ANY ||
                         opts->nameType == NAME_TYPE_SAN_IP_ADDRESS)
                     {
-                        Snprintf(ip, 15, "%u.%u.%u.%u",
+                        /* An IPv4 address is exactly four octets and its
+                           text form is up to 15 characters plus the NUL. */
+                        if (n->dataLen != 4)
+                        {
+                            break;
+                        }
+                        Snprintf(ip, sizeof(ip), "%u.%u.%u.%u",
                             (unsigned char) (n->data[0]),
                             (unsigned char ) (n->data[1]),
                             (unsigned char ) (n->data[2]),
                             (unsigned char ) (n->data[3]));
-                        ip[15] = '\0';
+                        ip[sizeof(ip) - 1] = '\0';
                         if (Strcmp(ip, expectedName) == 0)
                         {
                             return rc;
